@@ -11,7 +11,8 @@ A step is one of
     ["rename", target, new]            line.name = new
     ["settag", target, tag, value]     line.set(tag, value)
     ["deltag", target, tag]            line.delete(tag)
-    ["setfield", target, field, value] line.set(field, value)          (illegal edits of connected lines, C08)
+    ["setfield", target, field, value] line.set(field, value)          (illegal edits of connected lines, C08; with the
+                                       optional feature fragment-external also the storage key of an F line)
     ["convert", how]                   getattr(g, how)()     how in to_gfa1_s / to_gfa2_s / to_gfa1 / to_gfa2
     ["convertline", target, how]       getattr(line, how)()  (both only with the optional generator feature convert)
 Dropping the identifier of an ID-tagged L/C line (optional generator feature "dropid") is written with the existing
@@ -23,7 +24,8 @@ number of such lines).
 Giving an L/C line its identifier while it is connected (optional generator feature "giveid") is written
 ["settag", t, "ID", n]  line.set("ID", n); the text model treats it as a rename (refused when n is in use).
 Optional generator features (repeated lines, dropid, giveid, convert, dup-link-over-placeholder, retag = remove a tag and set it again with another type, refused
-values for new tags, header lines refused next to their VN tag, header-first prelude for a Gfa of unknown version,
+values for new tags, placeholder-def-bad-positions = an E line with a misplaced $ mark that defines an identifier only groups mention,
+fragment-external = a value that is no oriented identifier for the field `external` of a connected fragment, header lines refused next to their VN tag, header-first prelude for a Gfa of unknown version,
 seg_lengths = segments of other lengths than 10, the empty segment included) are
 switched on per property through profile(); they are listed in the comment above profile().  Without them the
 generated histories are what they always were.
@@ -646,6 +648,21 @@ PROFILE = {
 #                        one of to_gfa1_s / to_gfa2_s (text) / to_gfa1 / to_gfa2 (objects).  The calls are queries, but
 #                        gfapy gives every connected GFA1 link / containment without ID tag an identifier (unused_name())
 #                        when it is converted to GFA2                               labels convert:gfa, convert:<RT>
+#   fails["placeholder-def-bad-positions"]=w   (GFA2, validation level >= 1) an E line that defines an identifier which so
+#                        far only O/U lines mention (the Gfa holds a placeholder of unknown record type for it) and whose
+#                        positions are refused only when the line is connected: the begin of one interval carries the $
+#                        mark, its end does not (BAD_DOLLAR; every field is well-formed and begin <= end).  When no such
+#                        identifier is there (and in 20% of the draws anyway) a U or O line that mentions an unused edge
+#                        identifier is added first (label add:<U|O>:fwd)        label fail:placeholder-def-bad-positions
+#   fails["fragment-external"]=w   (GFA2) line.set("external", x) on a connected F line, written ["setfield", "@F:i",
+#                        "external", x] - `external` is the key under which the Gfa keeps a fragment, so the assignment
+#                        moves the line in the collections of the Gfa.  Level >= 1: x is no oriented identifier
+#                        (EXTERNAL_INVALID: no orientation, blank inside / at the end, empty, '*', an integer, a list);
+#                        10%: x is None.  Level 0: x in EXTERNAL_UNVALIDATED.  When there is no F line (and in 15% of the
+#                        draws anyway) one is added first (label add:F); at level >= 1, 30%: a legal assignment
+#                        ("r3+" ... "r5-") to the same line comes first (label setfield:external; the text model does not
+#                        follow it: only for properties that do not compare the written text with the model)
+#                                 label fail:fragment-external, fail:fragment-external:unvalidated (x None, or level 0)
 # gen_fail / gen_mutation may return a list of (step, label) pairs instead of one pair: the steps follow each other.
 def profile(**kw):
     p = dict(PROFILE)
@@ -917,6 +934,15 @@ IDENTIFIED = {"gfa1": ["S", "L", "C", "P"], "gfa2": ["S", "E", "G", "O", "U"]}
 # and values of another class that are accepted for a new tag
 REFUSED_TAG_VALUES = [("a\tb", "Z"), ("x\ny", "Z"), ("", "Z"), ("caf\u00e9", "Z"), ([], "B"), (True, "i"), ([True], "B")]
 NEW_TAG_NAMES = ["zq", "xy", "qq"]
+
+# (begin, end) of an interval of an E line whose begin carries the $ mark (last position of the segment) while its end does
+# not: every field is well-formed and begin <= end, so the line is built at every validation level; it is refused when it
+# is connected ("Wrong use of $ marker")
+BAD_DOLLAR = [("10$", "10"), ("7$", "10"), ("5$", "5"), ("0$", "5")]
+# values that are no oriented identifier (refused at validation levels >= 1 when assigned to the field `external` of a
+# connected fragment), and values that a connected fragment cannot be kept under at a level that does not validate
+EXTERNAL_INVALID = ["read3", "x y+", 5, "", "r3+ ", "+", "*", ["a", "+"]]
+EXTERNAL_UNVALIDATED = [None, 5, ""]
 
 
 def _line_targets(rng, m, pred=None):
@@ -1200,6 +1226,67 @@ def gen_fail(rng, m, prof):
             first, second = (a, x) if rng.chance(0.5) else (x, a)
             c = ["E\t%s\t%s+\t%s-\t0\t5\t5\t10$\t*" % (n, first, second), "G\t%s\t%s+\t%s+\t5\t*" % (n, first, second)]
             return ["add", rng.choice(c)], "fail:placeholder-def-nonsegment"
+        if k == "placeholder-def-bad-positions":
+            # optional (no weight by default): the definition, as an E line, of an identifier that so far only groups
+            # mention (the Gfa holds a placeholder of unknown record type for it); the E line is built without complaint
+            # and is refused when it is connected, for a begin position that carries the $ mark while its end does not
+            if v != "gfa2" or prof.get("_vlevel", 1) < 1:
+                continue
+            gm, sm = set(), set()
+            for r in m.recs:
+                (gm if r[0] in ("O", "U") else sm).update(mentions(r, v))
+            ph = sorted(gm - sm - set(ids) - {"*"})
+            out = []
+            if not ph or rng.chance(0.2):
+                # a group that mentions an identifier no line has comes first
+                e = _unused(rng, m, EDGE_IDS)
+                if e is None or e in sm:
+                    continue
+                grt = rng.choice("UO")
+                gid = _unused(rng, m, U_IDS if grt == "U" else O_IDS) or "*"
+                items = [e] + ([_pick_seg(rng, m, prof)] if rng.chance(0.6) else [])
+                rng.shuffle(items)
+                if grt == "O":
+                    items = [x + rng.choice("+-") for x in items]
+                gtext = "\t".join([grt, gid, " ".join(items)])
+                if m.copy().add(gtext) != "ok":
+                    continue
+                out.append((["add", gtext], "add:%s:fwd" % grt))
+                n = e
+            else:
+                n = rng.choice(ph)
+            a, b = _pick_seg(rng, m, prof), _pick_seg(rng, m, prof)
+            if n in (a, b):
+                continue
+            good, bad = rng.choice(E_KINDS), rng.choice(BAD_DOLLAR)
+            pos = (bad + good) if rng.chance(0.5) else (good + bad)
+            out.append((["add", "E\t%s\t%s%s\t%s%s\t%s\t%s\t%s\t%s\t*" % ((n, a, rng.choice("+-"), b, rng.choice("+-")) + pos)],
+                        "fail:placeholder-def-bad-positions"))
+            return out if len(out) > 1 else out[0]
+        if k == "fragment-external":
+            # optional (no weight by default): the field `external` of a connected fragment - the key under which the
+            # Gfa keeps an F line - is assigned a value that is no oriented identifier
+            if v != "gfa2":
+                continue
+            vl = prof.get("_vlevel", 1)
+            out = []
+            nf = m.count("F")
+            if nf == 0 or rng.chance(0.15):
+                a = _pick_seg(rng, m, prof)
+                out.append((["add", "\t".join(["F", a, "r%d%s" % (rng.randint(1, 2), rng.choice("+-")), "0", "5", "0", "5", "*"])],
+                            "add:F" + (":fwd" if a not in ids else "")))
+                nf += 1
+            t = "@F:%d" % rng.randrange(nf)
+            if vl >= 1 and rng.chance(0.3):
+                # a legal assignment first: the fragment moves to another key (the text model does not follow it)
+                out.append((["setfield", t, "external", "r%d%s" % (rng.randint(3, 5), rng.choice("+-"))], "setfield:external"))
+            if vl == 0:
+                val = rng.choice(EXTERNAL_UNVALIDATED)
+            else:
+                val = None if rng.chance(0.1) else rng.choice(EXTERNAL_INVALID)
+            out.append((["setfield", t, "external", val],
+                        "fail:fragment-external" + (":unvalidated" if val is None or vl == 0 else "")))
+            return out if len(out) > 1 else out[0]
         if k == "rename-invalid":
             # a new identifier that is no identifier: refused by the field validation (vlevel >= 1)
             if prof.get("_vlevel", 1) < 1 or not ids:
@@ -1420,7 +1507,8 @@ def _closing_steps(rng, m):
 
 
 # calls that the library refuses at the validation level they are generated for, but that the text model would apply
-NOAPPLY = {"fail:header-dt", "fail:rename-invalid", "fail:path-short-overlaps", "fail:tag-value", "fail:header-vn-conflict"}
+NOAPPLY = {"fail:header-dt", "fail:rename-invalid", "fail:path-short-overlaps", "fail:tag-value", "fail:header-vn-conflict",
+           "fail:placeholder-def-bad-positions"}
 
 
 def gen_history(rng, v, nsteps, prof, max_total=None):
